@@ -230,6 +230,27 @@ def check_code_text(case):
     # a NaN from the host is a number that is not a number; it is no error value, and the observers agree about that
     for text, want in (('ISERROR(v_nan)', False), ('ISERR(v_nan)', False), ('ISNA(v_nan)', False), ('OR(ISERR(v_nan),ISNA(v_nan))=ISERROR(v_nan)', True), ('IFERROR(v_nan,"trapped")&""', 'nan'), ('IFNA(v_nan,"trapped")&""', 'nan')):
         expect_top(text, env.parse(text), want, 'a NaN handed over by the host:')
+    # an error operand of & is the result whatever the other operand is - a value that has no text of its own (a host object whose str() raises, an integer
+    # of 5000 digits, which the interpreter refuses to spell) included
+    class NoText(object):
+        def __str__(self):
+            raise RuntimeError('no text')
+        __repr__ = __str__
+    env.P.set_variable('v_obj', NoText())
+    env.P.set_variable('v_huge', 10 ** 5000)
+    for V in ('v_obj', 'v_huge'):
+        for text, want in (('%s&(1/0)' % V, Err('#DIV/0!')), ('(1/0)&%s' % V, Err('#DIV/0!')), ('NA()&%s' % V, Err('#N/A')), ('IFERROR((1/0)&%s,7)' % V, 7), ('ISNA(%s&NA())' % V, True), ('ERROR.TYPE(%s&(1/0))' % V, 2)):
+            expect_top(text, env.parse(text), want, 'an error operand of & next to a value that cannot be turned into text:')
+    # ISERROR = ISERR or ISNA for every x, an array that holds no error included: the three observers answer it alike (what they answer is theirs to say)
+    env.P.set_variable('v_arr', [1, 2])
+    env.P.set_variable('v_tab', [[1, 'x'], [None, True]])
+    for X in ('{1,2}', 'v_arr', 'v_tab', '{"a",1}', 'IFNA(v_arr,3)'):
+        got = [env.parse('%s(%s)' % (fn, X)) for fn in ('ISERROR', 'ISERR', 'ISNA')]
+        if len(set(g['error'] for g in got)) != 1:
+            raise Violation('x = %s, an array without errors: ISERROR(x), ISERR(x), ISNA(x) -> %r: ISERROR = ISERR or ISNA cannot hold' % (X, got), repr(got), None)
+        vals = [g['result'] for g in got]
+        if all(isinstance(v, bool) for v in vals) and vals[0] != (vals[1] or vals[2]):
+            raise Violation('x = %s: ISERROR(x), ISERR(x), ISNA(x) = %r' % (X, vals), repr(vals), None)
 
 
 def enum_code_text(tier, shard, nshards):
@@ -335,7 +356,7 @@ LAWS = [
     Law('matrix', check_matrix, enumerate=enum_matrix, exhaustive=True, shards=(8, 8), weight=lambda n: 31 if n[0] == 'src' else 8,
         rule='every error code x every production route (variable, cell, host function returning / raising, SUM / MAX / PRODUCT raising, nested call; operator- and builtin-made ones), bare, under each operator kind, and under each trapping function; all 9 error literals'),
     Law('code_spelling_text', check_code_text, enumerate=enum_code_text, exhaustive=True, shards=(4, 4), weight=lambda c: 10,
-        rule='each of the nine codes as a *text* (literal, variable, cell, produced by & and by CONCATENATE): ISERROR/ISERR/ISNA are FALSE, IFERROR/IFNA keep it, ERROR.TYPE is #N/A, it joins and compares as text'),
+        rule='each of the nine codes as a *text* (literal, variable, cell, produced by & and by CONCATENATE): ISERROR/ISERR/ISNA are FALSE, IFERROR/IFNA keep it, ERROR.TYPE is #N/A, it joins and compares as text; six facts about a NaN variable; the three observers agree on five error-free arrays'),
     Law('propagation', check_propagation, strategy=prop_case(), classes=prop_classes, key=prop_key, quick=4000, thorough=200000, shards=(8, 16),
         required=('under-comparison', 'under-amp', 'under-neg', 'two-codes', 'array-operand', 'route:literal', 'route:host-raises', 'route:SUM-raises', 'route:operator', 'route:var'),
         nontrivial=lambda c: depth_of_error(c['tree']) >= 2 or 'two-codes' in prop_classes(c),
